@@ -25,16 +25,17 @@ SPEC = dict(
                "(porcupine timeout 10 s => inconclusive). EnableCache / EnableMonitoring are not in the statement's list of concurrent operations and are not mixed in.",
     engines=[dict(name="conc-search", shards=T(8, 16), timeout=T(1500, 7200), race=True, parallel=8),
              dict(name="conc-lru", shards=T(8, 16), timeout=T(1500, 7200), race=True, parallel=8)],
-    rule="search part: case = one round (database from one loader, 4-32 goroutines x K operations); LRU part: case = one recorded history; distinct by "
+    rule="mixed-option rounds: after each concurrent-search round a fresh instance is searched by 8 goroutines that do NOT share one option set - half ask plainly for words of the database, half ask for the same words with a boost on them under pipeline-only / a platform nobody declares / a misspelling / no filter; every answer must equal the answer of the same request as the only search on an instance of its own. "
+         "search part: case = one round (database from one loader, 4-32 goroutines x K operations); LRU part: case = one recorded history; distinct by "
          "(round parameters) resp. by the observed order of call events (an interleaving shape); all are non-trivial (concurrent by construction). "
          "After every concurrent-search round, four pairs of look-alike requests (one query; platform lists / boost maps that read the same once written down without quotes) are asked "
          "through the caching wrapper at the same moment by two goroutines, 30 (60) times each with the cache emptied before, and compared with their answers alone. "
          "overlapping-sweep-rounds (conc-lru): a cache whose 200 entries have all outlived their lifetime is swept by three goroutines at once while six look up a key that is never stored; each reads "
          "Size() after its own sweep returned and must see 0, as it does when the same is run alone (checked first; a tree whose sweeps are lazy when run alone makes the rounds inconclusive).",
-    floors=T({"overlapping-sweep-rounds": 800, "same-key-hammer-rounds": 250, "look-alike-requests-asked-at-once": 6000, "look-alike-pairs-with-different-answers-asked-at-once": 60, "goroutine-rounds": 40, "concurrent-answers-compared": 3000, "loaded-by:LoadDatabaseWithFallback(faulty path)": 8, "monitored-searches": 500,
+    floors=T({"mixed-option-answers-compared": 5000, "overlapping-sweep-rounds": 800, "same-key-hammer-rounds": 250, "look-alike-requests-asked-at-once": 6000, "look-alike-pairs-with-different-answers-asked-at-once": 60, "goroutine-rounds": 40, "concurrent-answers-compared": 3000, "loaded-by:LoadDatabaseWithFallback(faulty path)": 8, "monitored-searches": 500,
               "histories-linearizable": 2000, "histories-searchcache": 300, "lru-hammer-rounds": 30, "distinct_nontrivial": 2000,
               "rounds-with-embeddings": 8, "fresh-instance-answers-compared": 60, "other-process-answers-compared": 50, "snapshot-rounds": 200, "snapshot-reads": 50000, "monitor-hammer-searches": 500000, "histories-with-lifetime": 500, "sweeps-that-removed-entries": 30},
-             {"overlapping-sweep-rounds": 8000, "same-key-hammer-rounds": 5000, "look-alike-requests-asked-at-once": 80000, "look-alike-pairs-with-different-answers-asked-at-once": 400, "goroutine-rounds": 250, "concurrent-answers-compared": 20000, "loaded-by:LoadDatabaseWithFallback(faulty path)": 50, "monitored-searches": 3000,
+             {"mixed-option-answers-compared": 30000, "overlapping-sweep-rounds": 8000, "same-key-hammer-rounds": 5000, "look-alike-requests-asked-at-once": 80000, "look-alike-pairs-with-different-answers-asked-at-once": 400, "goroutine-rounds": 250, "concurrent-answers-compared": 20000, "loaded-by:LoadDatabaseWithFallback(faulty path)": 50, "monitored-searches": 3000,
               "histories-linearizable": 40000, "histories-searchcache": 6000, "lru-hammer-rounds": 300, "distinct_nontrivial": 40000,
               "rounds-with-embeddings": 60, "fresh-instance-answers-compared": 500, "other-process-answers-compared": 400, "snapshot-rounds": 2000, "snapshot-reads": 500000, "monitor-hammer-searches": 5000000, "histories-with-lifetime": 10000, "sweeps-that-removed-entries": 600}),
     assumptions=["two thirds of the recorded LRU histories have no lifetime (time-independent model); in the others time is virtual (VerifAdvance) and ages are 400 h steps against a 1000 h lifetime, so real elapsed time never decides",
